@@ -48,6 +48,10 @@ def run(tier, seed):
             for f in ((fm[k % 6], fm[(k + 3) % 6]) if tier == "quick" else fm):
                 x = (docs.STD if (k + len(f)) % 2 else (E["NOTES"] | E["CRITIC"])) | (E["COMPLETE"] if k % 5 == 0 else 0)
                 s.append(line("conv", "s_conv", "u%d" % j, docs.FMT[f], x, k % 7))
+            if body(c).startswith((b"Title:", b"Key:")):
+                # the metadata API rewrites the source: replace the value of the last key, of the first key, add a key -- the rewritten text must stay well formed
+                for fam, key, val in (("s", "Author", "Bj\u00f6rk"), ("d", "other key", "x"), ("s", "Title", "\u4e2d"), ("d", "New", "caf\u00e9")):
+                    s.append(line("meta", fam, "u%d" % j, "upd", sx(key), sx(val.encode("utf-8")), "v%d" % j))
         segs.append(s)
     res = run_harness(exe, segs, timeout=30)
     trace = []; problems = []; nconv = 0
@@ -55,6 +59,10 @@ def run(tier, seed):
         if r["status"] != "ok": problems.append(("crash", seg, r))
         trace.append(dict(e="reset"))
         for ev in r["events"]:
+            if ev.get("e") == "meta" and ev.get("op") == "upd":
+                k = si * per + int(ev["src"][1:]); c = cases[k]
+                trace.append(dict(e="out", null=ev.get("text") is None, runs=runs_of((ev.get("text") or "").encode("latin-1")), srcruns=runs_of(body(c)) + [[0xc3, 0xb6], [0xe4, 0xb8, 0xad], [0xc3, 0xa9]], case=k, fmt=-1, ext=0))
+                continue
             if ev.get("e") != "conv": continue
             k = si * per + int(ev["src"][1:]); c = cases[k]
             out = project.lat1(ev.get("out")) if ev.get("out") is not None else b""
@@ -64,16 +72,17 @@ def run(tier, seed):
     acc, rejected, states, info = tlc.validate_trace("Utf8Trace", os.path.join(VERIF, "spec", "Utf8Trace.cfg"), trace, max_rejects=40, timeout=1500, independent=True)
     chk.add("traces_validated_against_impl", len(segs) - len(problems) - len({id(s) for s, i in rejected}))
     chk.cov["evaluations"] = nconv; chk.cov["distinct_nontrivial"] = len(cases)
-    chk.cov["rule"] = "cases = (template, position, code point, final newline) for 31 construct spellings x every character position x 15 code points (quick: 5000 sampled) + random pairs of adjacent code points; x 2 (thorough 6) textual formats x smart on/off x 7 languages rotating"
+    chk.cov["rule"] = "cases = (template, position, code point, final newline) for 35 construct spellings (metadata templates additionally through the metadata-update API) x every character position x 15 code points (quick: 5000 sampled) + random pairs of adjacent code points; x 2 (thorough 6) textual formats x smart on/off x 7 languages rotating"
     chk.sample(dict(doc=body(cases[0]).decode("utf-8"))); chk.sample(dict(doc=body(cases[-1]).decode("utf-8", "replace")))
     seen = {}
     for seg, idx in rejected:
         ev = seg[idx]; c = cases[ev["case"]]
-        key = "invalid-utf8:%s:%s" % (docs.FMTNAME[ev["fmt"]], c["cp"])
-        k2 = "invalid-utf8:%s" % c["cp"]
+        fname = docs.FMTNAME.get(ev["fmt"], "metadata-update")
+        key = "invalid-utf8:%s:%s" % (fname, c["cp"])
+        k2 = "invalid-utf8:%s:%s" % (c["cp"], "upd" if ev["fmt"] < 0 else "conv")
         if k2 in seen: seen[k2] += 1; continue
         seen[k2] = 1
-        chk.report(key, "output of %r (format %s, ext %d) contains ill-formed UTF-8; non-ASCII runs: %s" % (body(c), docs.FMTNAME[ev["fmt"]], ev["ext"], ev["runs"][:6]), dict(source=body(c).decode("latin-1"), fmt=ev["fmt"], ext=ev["ext"]))
+        chk.report(key, "output of %r (format %s, ext %d) contains ill-formed UTF-8; non-ASCII runs: %s" % (body(c), fname, ev["ext"], ev["runs"][:6]), dict(source=body(c).decode("latin-1"), fmt=ev["fmt"], ext=ev["ext"]))
     for kind, a, b in problems:
         k, f = san_signature(b.get("san", "")); key = "%s:%s:%s" % (b["status"], k, f)
         if key in seen: continue
